@@ -469,7 +469,9 @@ theorem invA_step (c : Cfg) (hc : c.fix13 = true) (s : St) (e : Ev) (h : InvA s)
     simp only [step, handOff]
     split
     · exact h0
-    · exact invA_publish c _ _ _ none ⟨h1, h2, h3, h4, h5, h6⟩
+    · split
+      · exact ⟨h1, h2, h3, h4, h5, h6⟩
+      · exact invA_publish c _ _ _ none ⟨h1, h2, h3, h4, h5, h6⟩
   | timerFire p =>
     simp only [step]; split
     · exact invA_sendEvents s p h0
@@ -820,7 +822,9 @@ theorem rel_step (c : Cfg) (s : St) (e : Ev) (h1 : ∀ a, e ≠ Ev.connect a) (h
     · rename_i x v rest _
       have h0 : Rel none s { s with handoffs := rest } :=
         ⟨rfl, rfl, fun _ => rfl, fun _ => rfl, fun _ h => h, fun _ => Or.inl rfl, fun _ h => h, fun _ _ _ h => h, fun _ _ h => h⟩
-      exact Rel.trans h0 (rel_publish c _ x v none)
+      split
+      · exact h0
+      · exact Rel.trans h0 (rel_publish c _ x v none)
   | timerFire p =>
     simp only [step]; split
     · exact rel_sendEvents s p
@@ -1654,7 +1658,9 @@ theorem invQ_step (c : Cfg) (s : St) (e : Ev) (h : InvQ c s) : InvQ c (step c s 
     simp only [step, handOff]
     split
     · exact h
-    · exact invQ_publish c _ _ _ none h
+    · split
+      · exact h
+      · exact invQ_publish c _ _ _ none h
   | timerFire p =>
     simp only [step]; split
     · exact invQ_sendEvents c s p h
